@@ -104,3 +104,59 @@ func ReadLines(path string) []string {
 	}
 	return strings.Split(s, "\n")
 }
+
+// DyingFrames returns the function lines of the goroutine a Go process died in: the first goroutine block after the
+// first panic / fatal-error headline of the child's output that has a frame outside package runtime (a crash inside
+// C code shows the scheduler's goroutine 0 first). Empty if there is no such block.
+func DyingFrames(path string) []string {
+	lines := ReadLines(path)
+	i := 0
+	for ; i < len(lines); i++ {
+		if fatalRe.MatchString(lines[i]) {
+			break
+		}
+	}
+	for i < len(lines) {
+		for ; i < len(lines); i++ {
+			if strings.HasPrefix(lines[i], "goroutine ") && strings.Contains(lines[i], "[") {
+				break
+			}
+		}
+		var out []string
+		own := false
+		for i++; i < len(lines); i++ {
+			l := lines[i]
+			if strings.TrimSpace(l) == "" {
+				break
+			}
+			if strings.HasPrefix(l, "\t") || strings.HasPrefix(l, " ") {
+				continue
+			}
+			out = append(out, l)
+			if !strings.HasPrefix(l, "runtime.") && !strings.HasPrefix(l, "runtime/") && !strings.HasPrefix(l, "created by runtime.") {
+				own = true
+			}
+		}
+		if own {
+			return out
+		}
+	}
+	return nil
+}
+
+// CodeUnderTestFrame returns the first frame of the dying goroutine that is not runtime, standard library or harness
+// code ("" if there is none: the process was taken down by the harness itself, which is never a verdict).
+func CodeUnderTestFrame(frames []string) string {
+	for _, f := range frames {
+		f = strings.TrimPrefix(f, "created by ")
+		for _, p := range []string{"massnet.org/mass/", "github.com/", "gopkg.in/", "golang.org/x/", "go.etcd.io/"} {
+			if strings.HasPrefix(f, p) {
+				if j := strings.LastIndex(f, "("); j > 0 {
+					f = f[:j]
+				}
+				return f
+			}
+		}
+	}
+	return ""
+}
